@@ -377,3 +377,30 @@ Print Assumptions C13_lane_buffer_readers_reviewed.
 Theorem C13_asm_inventory_covered : asm_inventory_ok = true.
 Proof. exact asm_inventory_covered. Qed.
 Print Assumptions C13_asm_inventory_covered.
+
+(** ** Wave 7: the model derived from the assembly text *)
+From Webp Require Import Arch.ArchAsm Arch.ArchAsmPinned.
+From WebpGen Require AsmAmd64.
+
+(** Interpreting the instruction list of sse4x4SSE2 - regenerated from
+    internal/dsp/ssim_amd64.s on every run - with the SSE2 semantics of
+    Arch/ArchAsm.v, on any memory of bytes, returns exactly the lane model (and
+    hence, by C13_lane16_sse_eq, the portable sse4x4). *)
+Theorem C13_asm_sse4x4_eq_model : forall m, (forall b o, 0 <= m b o <= 255) ->
+  run 100 AsmAmd64.asm_sse4x4SSE2 0 (init_state m) = Some (l_sse_list (block4 m "pix") (block4 m "ref")).
+Proof. exact asm_sse4x4_eq_model. Qed.
+Print Assumptions C13_asm_sse4x4_eq_model.
+
+(** Every other routine body (amd64 and arm64) and the DATA tables are pinned. *)
+Theorem C13_asm_bodies_pinned :
+  AsmAmd64.asm_digests = pinned_digests /\ AsmAmd64.asm_data_digest = pinned_data_digest.
+Proof. exact asm_bodies_pinned. Qed.
+Print Assumptions C13_asm_bodies_pinned.
+
+(** Quantise / dequantise use the same matrix of the same segment. *)
+Theorem C13_lane_segments_consistent :
+  forallb (seg_fact_ok LaneCalls.lane_seg_facts) LaneCalls.lane_seg_facts = true /\
+  existsb (fun f => String.eqb (snd (fst f)) "sqroot") LaneCalls.lane_seg_facts = true /\
+  existsb (fun f => String.eqb (snd f) "encodeFrame|seg:=&enc.dqm[info.Segment]") LaneCalls.lane_seg_facts = true.
+Proof. exact lane_segments_consistent. Qed.
+Print Assumptions C13_lane_segments_consistent.
